@@ -557,9 +557,13 @@ def user_op(fn, e):
 
 
 class MayThrow(object):
-    def __init__(self, facts):
+    def __init__(self, facts, external_may_throw=True):
+        """external_may_throw: how to treat callees without a body in the analysed units that are not declared noexcept
+        (ITT hooks, r1 entry points): True = conservative for "this never throws" claims, False = only user operations,
+        `throw` and allocating `new` count (used where the rule wants evidence of user code in a window)"""
         self.facts = facts
         self.memo = {}
+        self.external_may_throw = external_may_throw
 
     def node(self, fn, e):
         """can evaluating CFG element e (one node, not its sub-expressions) raise an exception?"""
@@ -576,7 +580,7 @@ class MayThrow(object):
         if k in ('call', 'ctor'):
             d = fn.callee(e)
             if d is None:
-                return k == 'call' and 'fx' in n      # call through a functor value: unknown target
+                return self.external_may_throw and k == 'call' and 'fx' in n      # call through a function value: unknown target
             return self.fn(d.get('u') or n.get('fn'), d)
         return False
 
@@ -593,7 +597,7 @@ class MayThrow(object):
         g = self.facts.fns.get(u)
         if g is None:
             # no body in the analysed units: destructors do not throw; anything else may
-            r = d.get('n') != '(dtor)'
+            r = self.external_may_throw and d.get('n') != '(dtor)'
             self.memo[u] = r
             return r
         self.memo[u] = False           # cycle guard (optimistic), fixed below
